@@ -3,7 +3,7 @@ recognise the (narrow) signatures of the open findings listed in known_findings.
 
 PROPS = {}
 NOT_CLAIMED = {}
-HOOK_COMMITS = ["16a14b9", "e75c637"]
+HOOK_COMMITS = ["16a14b9", "e75c637", "1973121"]
 
 PROPS["C05"] = dict(
     level_text="Bounded-exhaustive model checking of the reader state machine against the reference tokenisation over all inputs up to K "
@@ -394,6 +394,11 @@ _WALK_NOTE = ("Trusted: TLC; the harness's materialisation of tree values (mkdir
 
 def _walk(flavour, text, rule, rq, rt):
     mcs = [dict(module="mc/MC_Walk.tla", cfg=dict(quick="mc/MC_Walk_%s_quick.cfg" % flavour, thorough="mc/MC_Walk_%s_thorough.cfg" % flavour), xmx="16g")]
+    if flavour == "C03":
+        # the walk as the code performs it (walkdir's iterator driven by process_dir: stack of open directories, deferred
+        # directories under -depth, skip_current_dir after -prune) refines the reference walk on every small tree x
+        # follow mode x range x -depth x one pruned directory x one unreadable directory or mount point (x -xdev)
+        mcs.append(dict(module="mc/MC_WalkImpl.tla", cfg=dict(quick="mc/MC_WalkImpl_quick.cfg", thorough="mc/MC_WalkImpl_thorough.cfg"), xmx="16g"))
     if flavour == "C02":
         # directories that cannot be read (run as an unprivileged user): one error each, siblings and later starting points still visited
         mcs.append(dict(module="mc/MC_Walk.tla", cfg=dict(quick="mc/MC_Walk_C02u_quick.cfg", thorough="mc/MC_Walk_C02u_thorough.cfg"), xmx="16g"))
@@ -402,6 +407,9 @@ def _walk(flavour, text, rule, rq, rt):
         mc=mcs,
         record=dict(quick=rq, thorough=rt), selftest=dict(quick=40, thorough=200),
         trace=dict(module="trace/T_Walk.tla", cfg="trace/T_Walk.cfg"), trace_chunk=800,
+        # event-level traces of the walk loop (library built with the verification hook): every entry handed to the expression,
+        # every walk error and every skip_current_dir() must be the next step of the machine FindWalkImpl
+        more=[dict(record_vh="WLOOP", record=dict(quick=400, thorough=8000), trace=dict(module="trace/T_WalkLoop.tla", cfg="trace/T_WalkLoop.cfg"), trace_chunk=400)],
         rule=rule, exhaustive_note="bounded-exhaustive over trees up to N nodes", assumptions=[])
 
 PROPS["C02"] = _walk("C02",
